@@ -144,7 +144,11 @@ def run(ck):
                     flags.append("1")
                     hist.append("add " + ",".join(f"{d.name}:{d.type_str()}{'(scaled)' if d.scaling else ''}" for d in new))
                 elif k == "remove" and dims:
-                    victims = ck.rng.sample(dims, ck.rng.choice([1, 1, min(2, len(dims))]))
+                    victims = ck.rng.sample(dims, min(len(dims), ck.rng.choice([1, 1, 2, 2, 3])))
+                    if len(victims) > 1 and ck.rng.random() < 0.5:
+                        # names given in the opposite of record order (the last dimensions first)
+                        victims.sort(key=lambda d: -dims.index(d))
+                    ck.count("remove_%d_names" % len(victims))
                     if len(victims) == 1:
                         las.remove_extra_dim(victims[0].name)
                     else:
